@@ -399,6 +399,65 @@ DEFS = {
                 break
 """, 2),
     ],
+    "mutants/c04_fix_copy_shadow_reverted": [
+        # the definition which Python would have found without the copies is not used: the copy hides the override of a sibling again
+        (CHK, """            ) and not _is_copy_of(copy=value, original=native):
+                value = native
+                unshadowed.add(name)
+""", """            ) and not _is_copy_of(copy=value, original=native):
+                pass
+"""),
+    ],
+    "mutants/c07_fix_all_by_identity_reverted": [
+        ("icontract/_recompute.py", "                func is builtins.all  # (an identity: an arbitrary callable may compare equal to anything)\n",
+         "                func == builtins.all  # pylint: disable=comparison-with-callable\n"),
+        ("icontract/_recompute.py", "        assert func is builtins.all\n", "        assert func == builtins.all  # pylint: disable=comparison-with-callable\n"),
+    ],
+    "mutants/c07_fix_empty_closure_cell_reverted": [
+        (REPR, """            try:
+                closure_dict[freevar] = cell.cell_contents
+            except ValueError:
+                # The cell is empty: the variable of the enclosing scope is not bound (yet). The condition
+                # can not have read it either, so there is no value to be represented.
+                continue
+""", """            closure_dict[freevar] = cell.cell_contents
+"""),
+    ],
+    "mutants/c03_fix_setattr_by_bound_name_reverted": [
+        (CHK, """        wrapper = _decorate_with_invariants(
+            func=func, is_init=False, is_setattr=(name == "__setattr__")
+        )
+""", """        wrapper = _decorate_with_invariants(func=func, is_init=False)
+"""),
+    ],
+    "mutants/c03_call_wrappers_read_all_invariants": [
+        (CHK, """                    if is_setattr
+                    else instance.__class__.__invariants_on_call__
+""", """                    if is_setattr
+                    else instance.__class__.__invariants__
+""", 2),
+    ],
+    "seeded/C13_r2_async_method_checks_setattr_invariants": [
+        (CHK, """                invariants = (
+                    instance.__class__.__invariants_on_setattr__
+                    if is_setattr
+                    else instance.__class__.__invariants_on_call__
+                )
+""", """                # ``__setattr__`` can not be a coroutine function, so there is no need to select the invariants
+                # by the kind of the member here (as opposed to the sync wrapper below).
+                invariants = instance.__class__.__invariants__
+"""),
+    ],
+    "mutants/c14_fix_unreadable_class_attribute_reverted": [
+        (CHK, """        try:
+            value = getattr(cls, name)
+        except AttributeError:
+            # An entry of the directory need not be readable on the class itself (*e.g.*, a descriptor which is
+            # defined only for the instances). There is nothing to be decorated then.
+            continue
+""", """        value = getattr(cls, name)
+"""),
+    ],
     # ---------------------------------------------------------------------------------------------- precondition groups
     "mutants/c01_skip_last_of_long_group": [
         (CHK, "        for contract in group:\n", "        for contract in (group[:-1] if len(group) > 2 else group):\n", 2),
